@@ -56,6 +56,13 @@ func genWorld(r *rand.Rand, depth int) *model.World {
 			w.Root[n] = &model.Setting{Ex: g.Gen(r, depth)}
 		}
 	}
+	if r.Intn(3) == 0 {
+		// referencing strings inside list elements (and inside a dictionary
+		// inside a list): they live in the same tree and resolve from its root
+		for _, k := range []string{"ls.0", "ls.1", "ls.2.k"} {
+			w.Root[k] = &model.Setting{Ex: g.Gen(r, depth)}
+		}
+	}
 	if r.Intn(6) == 0 {
 		// a container, referenced exactly by one setting
 		var o *model.Node
@@ -275,6 +282,14 @@ func compare(res *harness.R, w *model.World, b *vx.Built, k string, s *model.Set
 		if !mres.Container {
 			v, err = vx.ReadField(b.C, k, reflect.TypeOf(""), b.Opts)
 			reads = append(reads, reading{"Unpack(string)", v, err})
+		}
+		if strings.HasPrefix(k, "ls.") && !mres.Container {
+			// through a handle of the list, and the whole list unpacked
+			if ch, cerr := b.C.Child("ls", -1, b.Opts...); cerr == nil {
+				rest := strings.TrimPrefix(k, "ls.")
+				str, err := ch.String(rest, -1, b.Opts...)
+				reads = append(reads, reading{"Child(ls).String()", str, err})
+			}
 		}
 		if strings.HasPrefix(k, "s.") && !mres.Container {
 			ch, cerr := b.C.Child("s", -1, b.Opts...)
